@@ -14,6 +14,7 @@ import KVerif.Drv.C12
 import KVerif.Drv.C16
 import KVerif.Drv.C20 -- C20
 import KVerif.Drv.C15
+import KVerif.Drv.C11 -- C11
 open KVerif.Drv
 
 /-- kvdrv <prop>: one case line in, one `M <model> ## S <spec>` line out. -/
@@ -40,6 +41,7 @@ def dispatch (prop : String) : Option (String → String × String) :=
   | "C16" => some C16.run
   | "C20" => some C20.run -- C20
   | "C15" => some C15.run
+  | "C11" => some C11.run -- C11
   | _ => none
 
 partial def loop (h : IO.FS.Stream) (out : IO.FS.Stream) (f : String → String × String) : IO Unit := do
